@@ -27,7 +27,7 @@ EDGES = ['fEq', 'null', 'periodic']
 
 class Consts:
     CN0, kN0, deltaRN0, rp = Fr(1, 10), Fr(11, 200), Fr(29, 10), Fr(73, 10)
-    CTi, kTi, deltaRTi = Fr(1), Fr(27586, 100000), Fr(145, 100)
+    CTi, kTi, deltaRTi = Fr(5, 4), Fr(27586, 100000), Fr(145, 100)      # CTi != 1: a scale in the wrong place is visible
     CTe, kTe, deltaRTe = Fr(3, 2), Fr(1, 5), Fr(2)          # deliberately different from the ion values
 
 
